@@ -197,7 +197,12 @@ def check_case(case, ev=None, want_caught=False):
     if ref[0] == "reject":
         return None
     uri = "/c13_%d.html" % next(_uri)
-    got = mako_run(src, mode, uri)
+    try:
+        with trun.cpu_guard():
+            got = mako_run(src, mode, uri)
+    except trun._Timeout:
+        raise Failure(case, "mako did not finish within %.0f s CPU (reference terminates)\n--- source ---\n%s" % (trun.MAKO_CPU_LIMIT_S, src),
+                      "mako-does-not-terminate")
     if got[0] == "compile-exc":
         raise Failure(case, "planted program does not compile: %s\n--- source ---\n%s" % (got[1:], src), "compile:" + got[1])
     tag = "\n--- source ---\n" + src
